@@ -1,9 +1,9 @@
 #!/usr/bin/env python3
-"""store_seed.py <ID> <n> <caught_by (comma list or '-')> <note>  : copies a validated seeded change from /tmp/wt9/<ID>/seeded/<n> into /verif/seeded/<ID>-<n>/"""
+"""store_seed.py <ID> <n> <caught_by (comma list or '-')> <note>  : copies a validated seeded change from /tmp/wtN/<ID>/seeded/<n> into /verif/seeded/<ID>-<n>/"""
 import json, os, shutil, subprocess, sys
 pid, n, caught, note = sys.argv[1:5]
 dst_n = sys.argv[5] if len(sys.argv) > 5 else n
-src = f"/tmp/wt9/{pid}/seeded/{n}"
+src = f"/tmp/wtN/{pid}/seeded/{n}"
 dst = f"/verif/seeded/{pid}-{dst_n}"
 os.makedirs(dst, exist_ok=True)
 shutil.copy(f"{src}/patch.diff", f"{dst}/patch.diff")
@@ -12,7 +12,7 @@ try:
     meta = json.load(open(f"{src}/meta.json"))
 except Exception as e:
     meta = {"property": pid, "summary": "(agent meta.json unreadable)", "needs": "", "ran": ""}
-val = subprocess.run(["/verif/tools/validate_seed.sh", f"/tmp/wt9/{pid}", src], capture_output=True, text=True).stdout.strip().splitlines()
+val = subprocess.run(["/verif/tools/validate_seed.sh", f"/tmp/wtN/{pid}", src], capture_output=True, text=True).stdout.strip().splitlines()
 meta["property"] = pid
 meta["confirmed_in_scratch_worktree"] = val
 meta["base_commit"] = subprocess.run(["git", "-C", "/repo", "rev-parse", "--short", "HEAD"], capture_output=True, text=True).stdout.strip()
